@@ -11,6 +11,7 @@ Requests:
   xref <strict> <start> <k> (<pos> <X|obj> <X|obj>)*k
   calls obj                              getobj calls of resolve1 on the current graph, and the proved bound (round 6)
   sdec <k> <namehex>*k <hex>             PDFStream.decode with /Filter [names], no DecodeParms (round 6)
+  pred png|tiff <colors> <columns> <bpc> <hex>   predictors of Model/Filters.lean on arbitrary parameters (round 6)
   dec rl|ahx|a85|lzw <hex>               stream decoders of Model/Filters.lean on arbitrary payloads (round 6)
 Replies:  V …  |  E <PythonClassName>  |  E fuel  |  bad-op
 -/
@@ -189,6 +190,13 @@ def decoder (name : String) : Option (Bytes → Except PdfVerif.Filters.Err Byte
 
 def step (g : Graph) (line : String) : Graph × String :=
   match words line with
+  | ["pred", kind, co, cl, bp, h] =>
+    match co.toNat?, cl.toNat?, bp.toNat?, bytesOfHex h with
+    | some co, some cl, some bp, some d =>
+      if kind == "png" then (g, decReply (PdfVerif.Filters.apply_png_predictor co cl bp d))
+      else if kind == "tiff" then (g, decReply (PdfVerif.Filters.apply_tiff_predictor co cl bp d))
+      else (g, "bad-op")
+    | _, _, _, _ => (g, "bad-op")
   | ["dec", name, h] =>
     match decoder name, bytesOfHex h with
     | some f, some d => (g, decReply (f d))
